@@ -10,6 +10,8 @@ LEVEL = "proof"
 CONFIGS_QUICK = ["default", "sync"]
 CONFIGS_THOROUGH = ["default", "sync", "specialized", "sync+specialized"]
 
+HANDLES_CONFIGS = True
+
 EXPLANATION = (
     "Send + Sync of the public value types is decided by rustc's trait solver on generated witness programs "
     "(cargo check only; nothing is executed): the positive witness instantiates need::<T: Send + Sync>() for "
